@@ -4,7 +4,7 @@ A program is a tree of items:
   ("def", name, kind, value)    kind: 'label' | 'eq' | 'assign' ; value: hole name (constants)
   ("ref", name)                 `.dl name`  (name may be qualified: 'ns.a')
   ("scope", kind, name, items, extra)
-        kind: 'block' | 'named' | 'macro' | 'loop'
+        kind: 'block' | 'named' | 'macro' | 'loop' | 'cond' (.if/else branch: NOT a scope; extra = 'then-taken' | 'then-untaken' | 'else-taken' | 'else-untaken')
         name: scope name (named) / macro name (macro) / loop variable (loop)
         extra: macro -> list of (param, argument text, argument value hole or None)
                loop  -> iteration count
@@ -71,6 +71,18 @@ def render(items, indent=""):
                 out.append(f"{indent}.for {name} := 0, {extra} {{")
                 out.append(render(body, indent + "  "))
                 out.append(f"{indent}}}")
+            elif kind == "cond":
+                # a conditional is not a scope: the selected branch belongs to the enclosing scope
+                branch, taken = extra.split("-")
+                if branch == "then":
+                    out.append(f"{indent}.if {1 if taken == 'taken' else 0} {{")
+                    out.append(render(body, indent + "  "))
+                    out.append(f"{indent}}}")
+                else:
+                    out.append(f"{indent}.if {0 if taken == 'taken' else 1} {{")
+                    out.append(f"{indent}}} else {{")
+                    out.append(render(body, indent + "  "))
+                    out.append(f"{indent}}}")
         else:
             raise ValueError(it)
     return "\n".join(x for x in out if x != "")
@@ -119,6 +131,10 @@ def evaluate(items, val, start_addr, advance, opwidth=2):
                 addr[0] = advance(addr[0], 1 + opwidth if isop else 3)
             else:
                 _, kind, name, body, extra = it
+                if kind == "cond":
+                    if extra.endswith("-taken"):
+                        walk(body, scope, in_loop)
+                    continue
                 if kind == "loop":
                     for i in range(extra):
                         s = Scope(scope, kind, name)
